@@ -73,6 +73,9 @@ def run(ctx) -> None:
   ctx.rule('R4', 'enum maps injective and total; trial-state functions cover every member', 5)
   ctx.rule('R5', 'no mutation of a message after it was copied into its container', 1)
   ctx.rule('R8', 'conditional children are never merged by name during conversion', 1)
+  ctx.rule('R11', 'the sequence of intermediate measurements is converted element by element in its stored order (no sort / reverse / set / slice)', 2)
+  ctx.rule('R10', 'a to_proto that starts from the remembered proto clears every repeated field before it re-populates it '
+           '(otherwise removed entries come back on the wire)', 2)
   ctx.rule('R9', 'datetime <-> Timestamp conversions use one convention (epoch seconds; no naive-UTC helpers)', 1)
   ctx.import_rules('C10', {'R6', 'R1'}, 'R7', 'metadata values: str, then Any (stored as is), then other messages packed once')
   ctx.import_rules('C16', {'R8'}, 'R6', 'conditional spaces survive conversion only if every subspace owns its own config objects')
@@ -114,6 +117,8 @@ def run(ctx) -> None:
   r5_write_after_copy(ctx, schema, mi, sc)
   r8_children_not_keyed_by_name(ctx, mi)
   r9_time_conventions(ctx, mi)
+  r10_rebuilt_repeated_fields(ctx, schema)
+  r11_measurement_order(ctx, mi)
 
 
 # ----------------------------------------------------------------------- R1
@@ -213,6 +218,97 @@ def r1_compare(ctx, schema, ci, wf, rf, ew: Extractor, er: Extractor) -> None:
 
 
 # ----------------------------------------------------------------------- R9
+def r11_measurement_order(ctx, mi) -> None:
+  tc = mi.classes.get('TrialConverter')
+  if tc is None:
+    raise AnalysisError('TrialConverter not found')
+  for mname in ('from_proto', 'to_proto'):
+    fi = tc.methods.get(mname)
+    if fi is None:
+      raise AnalysisError(f'TrialConverter.{mname} not found')
+    par = [p for p in fi.params if p not in ('cls', 'self')][0]
+    g = cfgmod.CFG(fi.node)
+    prov = flow.Provenance(g, on_call=lambda c: 'args', on_attr=lambda a: 'stop' if (dotted(a) or '') == f'{par}.measurements' else 'through')
+    uses = [x for x in ast.walk(fi.node) if isinstance(x, ast.Attribute) and dotted(x) == f'{par}.measurements']
+    if not uses:
+      raise AnalysisError(f'TrialConverter.{mname}: `{par}.measurements` is not read')
+    bad = None
+    for n in g.nodes:
+      for c in flow.node_calls(n):
+        d = dotted(c.func) or ''
+        reorder = d in ('sorted', 'reversed', 'set', 'frozenset', 'random.sample', 'random.shuffle') or \
+            (isinstance(c.func, ast.Attribute) and c.func.attr in ('sort', 'reverse'))
+        if not reorder:
+          continue
+        subjects = list(c.args[:1]) + ([c.func.value] if isinstance(c.func, ast.Attribute) and c.func.attr in ('sort', 'reverse') else [])
+        for sj in subjects:
+          if any(k == 'attr' and dotted(v) == f'{par}.measurements' for k, v in prov.origins(sj, n)):
+            bad = bad or c
+      for e_ in flow.node_exprs(n):
+        for x in ast.walk(e_):
+          if isinstance(x, ast.Subscript) and isinstance(x.slice, ast.Slice) and dotted(x.value) == f'{par}.measurements':
+            bad = bad or x
+    ctx.check(bad is None, 'R11', f'TrialConverter.{mname}: measurement order', fi.node,
+              'the repeated field is walked as stored',
+              f'`{unparse(bad, 70) if bad is not None else ""}` re-orders or drops intermediate measurements during conversion: a trial whose '
+              'measurements are not already in that order is not equal to itself after the round trip (and a second conversion differs from the first)',
+              construct=f'{mname}:measurement-order', func=fi.qualname)
+
+
+def r10_rebuilt_repeated_fields(ctx, schema) -> None:
+  sc = ctx.index.need_class('vizier._src.pyvizier.oss.study_config.StudyConfig')
+  fi = sc.methods.get('to_proto')
+  if fi is None:
+    raise AnalysisError('StudyConfig.to_proto not found')
+  msg = schema.message('vizier.StudySpec') or next((schema.message(k) for k in ('StudySpec', 'vizier.service.StudySpec') if schema.message(k)), None)
+  if msg is None:
+    raise AnalysisError('StudySpec message not found in the .proto schema')
+  repeated = {f.name for f in msg.fields.values() if f.repeated}
+  g = cfgmod.CFG(fi.node)
+  dom = g.dominators()
+  base = None
+  for n in g.nodes:
+    if n.kind == 'stmt' and isinstance(n.ast, ast.Assign) and isinstance(n.ast.value, ast.Call) \
+        and (dotted(n.ast.value.func) or '').endswith('deepcopy') and n.ast.value.args \
+        and (dotted(n.ast.value.args[0]) or '').startswith('self._') and isinstance(n.ast.targets[0], ast.Name):
+      base = n.ast.targets[0].id
+  if base is None:
+    ctx.ok('R10', 'StudyConfig.to_proto', fi.node, 'does not start from a remembered proto')
+    ctx.ok('R10', 'StudyConfig.to_proto (no remembered proto)', fi.node, 'nothing to clear')
+    return
+  writes: Dict[str, List] = {}
+  clears: Dict[str, List] = {}
+  for n in g.nodes:
+    for e_ in flow.node_exprs(n):
+      for x in ast.walk(e_):
+        if isinstance(x, ast.Call) and isinstance(x.func, ast.Attribute):
+          recv = dotted(x.func.value) or ''
+          if recv.startswith(base + '.') and recv.count('.') == 1 and recv.split('.')[1] in repeated \
+              and x.func.attr in ('extend', 'append', 'add', 'MergeFrom', 'insert'):
+            writes.setdefault(recv.split('.')[1], []).append(n)
+          if recv == base and x.func.attr == 'ClearField' and x.args and isinstance(x.args[0], ast.Constant):
+            clears.setdefault(x.args[0].value, []).append(n)
+          if any(isinstance(a, ast.Name) and a.id == base for a in x.args) and 'metadata' in (dotted(x.func) or '') and 'metadata' in repeated:
+            writes.setdefault('metadata', []).append(n)
+    if n.kind == 'stmt' and isinstance(n.ast, ast.Delete):
+      for t in n.ast.targets:
+        if isinstance(t, ast.Subscript) and isinstance(t.slice, ast.Slice) and (dotted(t.value) or '').startswith(base + '.'):
+          clears.setdefault((dotted(t.value) or '').split('.')[1], []).append(n)
+  if len(writes) < 2:
+    raise AnalysisError(f'StudyConfig.to_proto: repeated fields written: {sorted(writes)} (metrics, parameters, metadata on the pinned tree)')
+  for f, ws in sorted(writes.items()):
+    ok = all(any(c.id in dom[w.id] for c in clears.get(f, [])) for w in ws)
+    ctx.check(ok, 'R10', f'StudyConfig.to_proto: `{f}` cleared before it is rebuilt', where_(fi, ws[0]),
+              f'del {base}.{f}[:] / ClearField dominates every write',
+              f'`{base}` is a copy of the proto remembered from from_proto and its repeated field `{f}` is appended to / merged into without '
+              'being cleared first: entries that were removed or renamed on the Python object are transmitted anyway', construct=f'to_proto:{f}',
+              func=fi.qualname)
+
+
+def where_(fi, node) -> str:
+  return f'{fi.file}:{getattr(node, "lineno", 0)}'
+
+
 def r9_time_conventions(ctx, mi) -> None:
   """Times cross the wire as epoch seconds/nanos and come back through the same convention.
 
